@@ -197,6 +197,19 @@ def body(ctx):
                 report_io(ctx, prog, 'after-exception', f"collector {shape1}: a frame after the client exception is not ignored ({err_name(prog, rv2)})", s2, w2, [out1, err_name(prog, rv2)], s2.pc, z3.BoolVal(same), [fs1, fs2], shape=shape1, infoA=infoA1)
     ctx.extra['second_step_paths'] = n2
     ctx.twin('c07.twin: some frame is answered with a client exception', [], z3.BoolVal(len(exc_states) == 0))
+    import c08, c01
+    c08.loop_done(ctx, prog)
+    # the client exception's Close must be the last thing sent: nothing is appended after the seal (not even once the buffer has
+    # drained), and writing the buffer out keeps the seal - the sealing obligations of C08 and the write loop of C01, decided here as well
+    sv = []
+    c08.sealing(ctx, io_executor(ctx, prog), prog, sv)
+    if sv:
+        ctx.report('seal-discipline', f"sealing of the output buffer: {str(sv[0])[:300]}", {'solver_counterexample': str(sv[0])[:400]}, c08.SEAL_TEST, inject_into='src/io_loop/mod.rs', profiles=('dev',))
+    wv = []
+    c01.write_loop(ctx, prog, wv)
+    if wv:
+        ctx.replay_timeout = 180
+        ctx.report('outbound-stream', f"write loop: {str(wv[0])[:300]}", {'solver_counterexamples': [str(v)[:300] for v in wv[:4]]}, c01.NATIVE, inject_into='src/io_loop/mod.rs', profiles=('dev',), hang_is_violation=True, panic_is_violation=True)
     do_reports(ctx, prog, reports)
 
 
